@@ -60,12 +60,14 @@ def loop_env(rc: RuleCtx, fi, extra=None):
     return ev, env, loop, post, fr
 
 
-def body_transfer(rc: RuleCtx, ev, fi, loop, env, out_list: str):
-    ivar = loop.target.id if isinstance(loop.target, ast.Name) else None
-    if ivar is None:
-        raise AnalysisError(f"{fi.qualname}: loop target is not a simple name")
+def body_transfer(rc: RuleCtx, ev, fi, loop, env, out_list: str, binding=None):
+    from .common import bind_loop
     benv = dict(env)
-    benv[ivar] = ev.symbol(ivar)
+    if binding is None:
+        binding = bind_loop(ev, Frame(ev, fi, 0), loop, env)
+    if binding is None:
+        raise AnalysisError(f"{fi.qualname}: loop header {ast.unparse(loop.iter)!r} has no recognised shape")
+    benv.update(binding.bindings)
     carried = [n for n in stored_names(ast.Module(body=loop.body, type_ignores=[])) if n in env and n != out_list]
     for n in carried:
         benv[n] = ev.symbol(n)
@@ -74,6 +76,9 @@ def body_transfer(rc: RuleCtx, ev, fi, loop, env, out_list: str):
         out = ev.eval_loop_body(fi, loop, benv)
     except Unsupported as e:
         raise AnalysisError(f"{fi.qualname}: loop body not modelled: {e}")
+    if out.breaks or out.returns:
+        raise AnalysisError(f"{fi.qualname}: break / return inside the filter loop - shape not recognised")
+    benv["__pos__"] = binding.idx
     return out, benv, carried
 
 
@@ -116,23 +121,16 @@ def check_provenance(rc: RuleCtx, rule: str, fi, loop, out, out_list: str, knees
 
 
 def check_range(rc: RuleCtx, rule: str, fi, loop, fr, env, lo_want: int, hi_want: Rat) -> bool:
-    ra = range_args(loop) if isinstance(loop, ast.For) else None
-    ok = False
-    if ra is not None:
-        if len(ra) == 1:
-            lo, hi = C(0), fr.expr(ra[0], env)
-        elif len(ra) == 2:
-            lo, hi = fr.expr(ra[0], env), fr.expr(ra[1], env)
-        else:
-            lo = hi = None
-        if isinstance(lo, Rat) and isinstance(hi, Rat) and lo.is_const() == lo_want and hi.equals(hi_want):
-            ok = True
-    if ok:
-        rc.res.ok(rule, f"{fi.qualname}:range", f"positions {lo_want}..{hi_want}-1 visited once each in ascending order")
-    else:
-        rc.res.violation(rule, fi.module, fi.name, loop, "the loop does not visit every required input position exactly once in ascending order",
-                         ast.unparse(loop.iter) if isinstance(loop, ast.For) else "while", f"range({lo_want}, {hi_want})", construct="loop range")
-    return ok
+    from .common import bind_loop
+    b = bind_loop(fr.ev, fr, loop, env) if isinstance(loop, ast.For) else None
+    if b is None:
+        raise AnalysisError(f"{fi.qualname}: loop header {ast.unparse(loop.iter) if isinstance(loop, ast.For) else 'while'!r} has no recognised shape")
+    if b.visits(lo_want, hi_want):
+        rc.res.ok(rule, f"{fi.qualname}:range", f"positions {lo_want}..{hi_want}-1 visited once each in ascending order ({b.what})")
+        return True
+    rc.res.violation(rule, fi.module, fi.name, loop, "the loop does not visit every required input position exactly once in ascending order",
+                     f"positions {b.lo}..{b.hi}-1 ({ast.unparse(loop.iter)})", f"positions {lo_want}..{hi_want}-1", construct="loop range")
+    return False
 
 
 def run(ctx):
@@ -204,7 +202,7 @@ def _worst(rc: RuleCtx):
     if not check_range(rc, "W3", fi, loop, fr, env, 1, sym("K")):
         return
     out, benv, carried = body_transfer(rc, ev, fi, loop, env, L)
-    i = benv[loop.target.id]
+    i = benv["__pos__"]
     check_provenance(rc, "W3", fi, loop, out, L, knees, i)
     apps = [e for e in out.events if e.kind == "append" and e.target == L]
     keep = g_or(*[e.guard for e in apps]) if apps else FALSE
@@ -255,7 +253,7 @@ def corner_guard(rc: RuleCtx, name: str):
     if not ok:
         return None
     out, benv, carried = body_transfer(rc, ev, fi, loop, env, L)
-    i = benv[loop.target.id]
+    i = benv["__pos__"]
     check_provenance(rc, "W3", fi, loop, out, L, env["knees"], i)
     apps = [e for e in out.events if e.kind == "append" and e.target == L]
     keep = g_or(*[e.guard for e in apps]) if apps else FALSE
@@ -273,7 +271,7 @@ def _corners(rc: RuleCtx):
     # reference predicate on symbols shared by both (same symbol names in both evaluations)
     px, py = (sym("points.x", True), sym("points.y", True))
     knees = sym("knees", True)
-    idx = _at(knees, sym(loop_f.target.id))
+    idx = _at(knees, i)
     n = sym("n")
     t = sym("t")
     interior = g_and(compare(">=", idx - C(1), C(0)), compare("<", idx + C(1), n))
@@ -288,8 +286,10 @@ def _corners(rc: RuleCtx):
     p_lt = g_or(g_and(pos, canon_sign(iou - t, OPS["<"])), g_and(g_not(pos), canon_sign(C(0) - t, OPS["<"])))
     want_f = g_or(g_and(interior, p_lt), g_not(interior))
     want_s = g_and(interior, g_not(p_lt))
-    if loop_s.target.id != loop_f.target.id:
-        raise AnalysisError("corner filter and selector use different loop variables - alignment not implemented")
+    # the two functions may name their position differently: express the selector's guard over the filter's position
+    if not i_s.equals(i):
+        from ..guards import G as _G
+        keep_s = _subst_guard(keep_s, {next(iter(i_s.symbols())): i})
     for (fi, loop, keep, want, what) in ((fi_f, loop_f, keep_f, want_f, "kept iff it is an end knee or IoU < t"),
                                          (fi_s, loop_s, keep_s, want_s, "selected iff it has both neighbours and IoU >= t")):
         try:
@@ -311,3 +311,16 @@ def _corners(rc: RuleCtx):
         res.violation("W2", fi_f.module, "filter_corner_knees+select_corner_knees", loop_f,
                       f"the number of the two functions that keep a given knee ranges over [{lo}, {hi}], not exactly 1: they do not partition the knee list",
                       f"[{lo}, {hi}]", "exactly one", construct="corner partition")
+
+
+def _subst_guard(g: G, mapping):
+    """Substitute symbols inside the sign facts of a guard."""
+    if g.kind == "sign":
+        return canon_sign(g.a.subst(mapping), g.b)
+    if g.kind == "not":
+        return g_not(_subst_guard(g.a, mapping))
+    if g.kind == "and":
+        return g_and(*[_subst_guard(x, mapping) for x in g.a])
+    if g.kind == "or":
+        return g_or(*[_subst_guard(x, mapping) for x in g.a])
+    return g
